@@ -576,7 +576,6 @@ func runC20(r *core.Run) {
 		s := r.Sub("priority-"+g.name+rn.suffix, fmt.Sprintf("every subset of the probes %v × every injective priority assignment from %v × every registration order × channel pattern {all via WithParserOptions/WithRendererOptions, all via an Extender calling AddOptions, alternating} × every script vector × documents %q: %s", g.names, pool, g.docs, g.rule))
 		var cfgs []c20Cfg
 		c20Enum(g.name, g.names, pool, g.scriptN, g.name == "render", func(c c20Cfg) { cfgs = append(cfgs, c) })
-		s.Planned = int64(len(cfgs) * len(g.docs))
 		s.Bound = fmt.Sprintf("probes≤%d priorities=%v configurations=%d documents=%d", len(g.names), pool, len(cfgs), len(g.docs))
 		complete := core.ForEachIndex(len(cfgs), core.Workers(), func(w int) func(int) {
 			return func(i int) {
@@ -584,6 +583,9 @@ func runC20(r *core.Run) {
 					c := cfgs[i]
 					c.Doc = d
 					c20Run(s, c)
+					if rn.suffix == "" && c.Comps != nil && c.Comps[0].Via == "options" && (len(c.Comps) < 2 || c.Comps[1].Via == "options") {
+						c20Shared(s, c)
+					}
 				}
 				if i%(len(cfgs)/4+1) == 0 {
 					s.AddSample(cfgs[i].describe())
@@ -604,4 +606,161 @@ func replayC20(r *core.Run, v *core.Violation) {
 	s := r.Sub(v.Sub, "replay")
 	s.Evals.Add(1)
 	s.Done()
+}
+
+// ---- one option value shared by two instances
+
+// c20Shared builds two instances from ONE parser option holding all but the last component (the option's slice has spare
+// capacity, as a caller's append-built slice usually has), then registers the last component on the first instance and a
+// twin of it, with another priority, on the second; both instances are built before either parses. Each instance's log
+// must be the priority model of its own registrations.
+func c20Shared(s *core.Sub, c c20Cfg) {
+	if len(c.Comps) < 2 || c.Group == "render" {
+		return
+	}
+	n := len(c.Comps)
+	var logA, logB []string
+	mk := func(k c20Comp, log *[]string) util.PrioritizedValue {
+		switch c.Group {
+		case "block":
+			var trig []byte
+			if strings.HasPrefix(k.Name, "BT") {
+				trig = []byte{'$'}
+			}
+			return util.Prioritized(&c20BP{name: k.Name, trig: trig, accept: k.Script == 1, log: log}, k.Prio)
+		case "inline":
+			return util.Prioritized(&c20IP{name: k.Name, accept: k.Script == 1, log: log}, k.Prio)
+		case "paragraph":
+			return util.Prioritized(&c20PT{name: k.Name, log: log}, k.Prio)
+		}
+		return util.Prioritized(&c20AT{name: k.Name, log: log}, k.Prio)
+	}
+	wrap := func(vals ...util.PrioritizedValue) parser.Option {
+		switch c.Group {
+		case "block":
+			return parser.WithBlockParsers(vals...)
+		case "inline":
+			return parser.WithInlineParsers(vals...)
+		case "paragraph":
+			return parser.WithParagraphTransformers(vals...)
+		}
+		return parser.WithASTTransformers(vals...)
+	}
+	// the shared components log into whichever instance is parsing: a switchable sink
+	var cur *[]string
+	sink := []string{}
+	cur = &sink
+	sharedVals := make([]util.PrioritizedValue, 0, 16)
+	for _, k := range c.Comps[:n-1] {
+		kk := k
+		var v util.PrioritizedValue
+		switch c.Group {
+		case "block":
+			var trig []byte
+			if strings.HasPrefix(kk.Name, "BT") {
+				trig = []byte{'$'}
+			}
+			v = util.Prioritized(&c20BPInd{c20BP{name: kk.Name, trig: trig, accept: kk.Script == 1}, &cur}, kk.Prio)
+		case "inline":
+			v = util.Prioritized(&c20IPInd{c20IP{name: kk.Name, accept: kk.Script == 1}, &cur}, kk.Prio)
+		case "paragraph":
+			v = util.Prioritized(&c20PTInd{kk.Name, &cur}, kk.Prio)
+		default:
+			v = util.Prioritized(&c20ATInd{kk.Name, &cur}, kk.Prio)
+		}
+		sharedVals = append(sharedVals, v)
+	}
+	shared := wrap(sharedVals...)
+	last := c.Comps[n-1]
+	twin := last
+	twin.Name = last.Name + "'"
+	twin.Prio = last.Prio + 7
+	for _, k := range c.Comps[:n-1] {
+		if k.Prio == twin.Prio {
+			twin.Prio += 3
+		}
+	}
+	var got [2]string
+	pan := func() (pan any) {
+		defer func() {
+			if p := recover(); p != nil {
+				pan = fmt.Sprintf("%v at %s", p, core.PanicSite())
+			}
+		}()
+		mdA := goldmark.New(goldmark.WithParserOptions(shared, wrap(mk(last, &logA))))
+		mdB := goldmark.New(goldmark.WithParserOptions(shared, wrap(mk(twin, &logB))))
+		cur = &logA
+		mdA.Parser().Parse(text.NewReader([]byte(c.Doc)))
+		cur = &logB
+		mdB.Parser().Parse(text.NewReader([]byte(c.Doc)))
+		return nil
+	}()
+	got[0], got[1] = strings.Join(logA, " "), strings.Join(logB, " ")
+	s.Evals.Add(2)
+	if pan != nil {
+		s.Violate("panic:shared-option:"+c.Group, "", nil, c.describe(), fmt.Sprint(pan), "", "panic")
+		return
+	}
+	cb := c
+	cb.Comps = append(append([]c20Comp{}, c.Comps[:n-1]...), twin)
+	var want [2]string
+	for i, cc := range []c20Cfg{c, cb} {
+		switch c.Group {
+		case "block":
+			want[i] = strings.Join(modelBlock(cc), " ")
+		case "inline":
+			want[i] = strings.Join(modelInline(cc), " ")
+		case "paragraph":
+			want[i] = strings.Join(modelParagraph(cc), " ")
+		default:
+			want[i] = strings.Join(modelAST(cc), " ")
+		}
+	}
+	for i := range got {
+		if got[i] != want[i] {
+			s.Violate("shared-option-instances-interfere:"+c.Group, "", nil, append(c.describe(), "all but the last registration come from ONE option value (slice with spare capacity) applied to two instances; the last one is registered on instance A, a twin "+twin.Name+" with priority "+fmt.Sprint(twin.Prio)+" on instance B; both are built before either parses"),
+				fmt.Sprintf("instance %c observed %q, priority model predicts %q", 'A'+i, got[i], want[i]), want[i], got[i])
+			return
+		}
+	}
+	s.Distinct(core.Hash([]byte(c.Group + "|shared|" + got[0] + "|" + got[1])))
+}
+
+// probe components that log through an indirection (the log of whichever instance is parsing)
+type c20BPInd struct {
+	c20BP
+	cur **[]string
+}
+
+func (b *c20BPInd) Open(parent ast.Node, reader text.Reader, pc parser.Context) (ast.Node, parser.State) {
+	b.c20BP.log = *b.cur
+	return b.c20BP.Open(parent, reader, pc)
+}
+
+type c20IPInd struct {
+	c20IP
+	cur **[]string
+}
+
+func (p *c20IPInd) Parse(parent ast.Node, block text.Reader, pc parser.Context) ast.Node {
+	p.c20IP.log = *p.cur
+	return p.c20IP.Parse(parent, block, pc)
+}
+
+type c20PTInd struct {
+	name string
+	cur  **[]string
+}
+
+func (p *c20PTInd) Transform(node *ast.Paragraph, reader text.Reader, pc parser.Context) {
+	**p.cur = append(**p.cur, p.name)
+}
+
+type c20ATInd struct {
+	name string
+	cur  **[]string
+}
+
+func (p *c20ATInd) Transform(node *ast.Document, reader text.Reader, pc parser.Context) {
+	**p.cur = append(**p.cur, p.name)
 }
